@@ -73,8 +73,8 @@ func init() {
 	})
 	defProperty(&Property{
 		ID:    "C10",
-		Rules: []string{"PN-HASH", "PN-ASSERT", "PN-PBREQ", "PN-STDLIB", "PN-INDEX", "PN-DIV", "PN-EXPLICIT", "RG-ERR", "EX-STACK"},
-		Explanation: "Static decision, over every function reachable in the call graph (static + CHA over repository implementors, closures and go bodies included, so panics on library goroutines are covered) from the token entry points (Unmarshal, every exported method of *Biscuit and *Block, NewVerifier, every method of the authorizer), of the panic classes a token can steer: PN-HASH (maps keyed by / == between interface values with unhashable implementors), PN-ASSERT (single-result type assertions must be dominated by the matching Type() tag test; tag map extracted from the implementors' Type() methods), PN-PBREQ (pointer-typed protobuf fields dereferenced only if the struct tag says required, under a nil guard, or via the nil-safe getter), PN-STDLIB (NewKeyFromSeed under len==32; Verify keys length-tested on every phi edge; Sign/Seed/Public only on keys from GenerateKey/NewKeyFromSeed/parameters; PutUint32 into >=4-byte buffers; no MustCompile of token data), PN-INDEX (sign-changing/truncating integer conversions feeding an index are bounded in the source domain first, per target architecture; symbol table indexes bounded above and below), PN-DIV, PN-EXPLICIT (explicit panics discharged by operator-registry totality), plus RG-ERR (no nil keys) and EX-STACK.",
+		Rules: []string{"PN-HASH", "PN-ASSERT", "PN-PBREQ", "PN-STDLIB", "PN-INDEX", "PN-CONSTINDEX", "PN-DIV", "PN-EXPLICIT", "RG-ERR", "EX-STACK"},
+		Explanation: "Static decision, over every function reachable in the call graph (static + CHA over repository implementors, closures and go bodies included, so panics on library goroutines are covered) from the token entry points (Unmarshal, every exported method of *Biscuit and *Block, NewVerifier, every method of the authorizer), of the panic classes a token can steer: PN-HASH (maps keyed by / == between interface values with unhashable implementors), PN-ASSERT (single-result type assertions must be dominated by the matching Type() tag test; tag map extracted from the implementors' Type() methods), PN-PBREQ (pointer-typed protobuf fields dereferenced only if the struct tag says required, under a nil guard, or via the nil-safe getter), PN-STDLIB (NewKeyFromSeed under len==32; Verify keys length-tested on every phi edge; Sign/Seed/Public only on keys from GenerateKey/NewKeyFromSeed/parameters; PutUint32 into >=4-byte buffers; no MustCompile of token data), PN-INDEX (sign-changing/truncating integer conversions feeding an index are bounded in the source domain first, per target architecture; symbol table indexes bounded above and below), PN-CONSTINDEX (a slice or string indexed / sliced with a constant is first proved long enough: the first-element probes of set conversion, prefix stripping), PN-DIV, PN-EXPLICIT (explicit panics discharged by operator-registry totality), plus RG-ERR (no nil keys) and EX-STACK.",
 		Decides:     "absence of the enumerated panic classes on every path reachable from untrusted token bytes, including library goroutines",
 		NotDecided:  "index expressions not fed by a lossy conversion (join odometer indexes, slices of protobuf-internal data), stack depth / memory exhaustion, panics inside protobuf, regexp, participle; explicit panics reachable only from caller-built (not token-derived) expressions",
 		Technique:   "call-graph reachability from token entry points + per-class SSA guard/dominance rules + struct-tag (schema) lookup",
@@ -170,8 +170,8 @@ func init() {
 func init() {
 	defProperty(&Property{
 		ID:    "C14",
-		Rules: []string{"PG-LEXER", "PG-LADDER", "PG-EMIT", "PG-OPMAP", "PG-ERR", "PG-LITERAL", "PR-PARENS"},
-		Explanation: "Static decision of the structural clauses of C14. PG-LEXER: the lexer rule table (token class names, patterns, priority order) and the parser options (lookahead 1, elided whitespace/EOL, unquoted strings) equal the frozen lexical syntax of the documented grammar, and every grammar entry point is built with them. PG-LADDER: starting from parser.Expression the chain of Left-field types is followed; each level's operator set is read from the participle tag of its operator node, its associativity from the Right field (slice + @@* = left-associative chain, pointer + @@? = non-associative); the extracted ladder must equal the frozen precedence of the property statement (|| < && < non-associative comparisons < + - < * / < prefix ! < method calls) and the precedence table parsed from GRAMMAR.md. PG-EMIT: in every operator node the operand's ToExpr call dominates the operator's (postfix emission), in every level Left is emitted before any Right (left associativity), negation is emitted as operand then UnaryNegate exactly under Operator != nil. PG-OPMAP: every operator token accepted by a grammar tag is a key of operatorMap, whose value has a clause in Operator.ToExpr assigning the specified biscuit operator (no silent zero value, no nil Op that panics on first use). PG-ERR: no error result of any call inside package parser is discarded. PG-LITERAL: every set element is tested for being a variable (ErrVariableInSet) inside the full element loop, an unbound parameter yields an error, parsed facts are tested term by term (ErrVariableInFact). PR-PARENS: UnaryParens is emitted exactly after a parenthesised sub-expression.",
+		Rules: []string{"PG-LEXER", "PG-LADDER", "PG-EMIT", "PG-OPMAP", "PG-POLICY", "PG-ERR", "PG-LITERAL", "PR-PARENS", "PN-CONSTINDEX"},
+		Explanation: "Static decision of the structural clauses of C14. PG-LEXER: the lexer rule table (token class names, patterns, priority order) and the parser options (lookahead 1, elided whitespace/EOL, unquoted strings) equal the frozen lexical syntax of the documented grammar, and every grammar entry point is built with them. PG-LADDER: starting from parser.Expression the chain of Left-field types is followed; each level's operator set is read from the participle tag of its operator node, its associativity from the Right field (slice + @@* = left-associative chain, pointer + @@? = non-associative); the extracted ladder must equal the frozen precedence of the property statement (|| < && < non-associative comparisons < + - < * / < prefix ! < method calls) and the precedence table parsed from GRAMMAR.md. PG-EMIT: in every operator node the operand's ToExpr call dominates the operator's (postfix emission), in every level Left is emitted before any Right (left associativity), negation is emitted as operand then UnaryNegate exactly under Operator != nil. PG-OPMAP: every operator token accepted by a grammar tag is a key of operatorMap, whose value has a clause in Operator.ToExpr assigning the specified biscuit operator (no silent zero value, no nil Op that panics on first use). PG-POLICY: in both policy entry points the kind is PolicyKindAllow exactly on the path where the 'allow if' alternative was parsed and PolicyKindDeny where 'deny if' was, with the queries of that alternative. PN-CONSTINDEX: constant indexes into captured token values and stripped prefixes are length-guarded (or covered by participle's Capture contract). PG-ERR: no error result of any call inside package parser is discarded. PG-LITERAL: every set element is tested for being a variable (ErrVariableInSet) inside the full element loop, an unbound parameter yields an error, parsed facts are tested term by term (ErrVariableInFact). PR-PARENS: UnaryParens is emitted exactly after a parenthesised sub-expression.",
 		Decides:     "precedence, associativity and non-associativity of the grammar against the documentation; postfix emission order; totality of the operator-token mapping; error discipline of the conversion layer; reporting of the listed malformed inputs",
 		NotDecided:  "absence of panics inside participle and its lexer; that the lexer regular expressions denote exactly the documented literal forms; value-level correctness of converted literals",
 		Technique:   "struct-tag grammar extraction + table agreement with GRAMMAR.md + SSA dominance (emission order) + error-discard analysis",
@@ -205,8 +205,8 @@ func init() {
 	})
 	defProperty(&Property{
 		ID:    "C05",
-		Rules: []string{"EN-APPLYALL", "EN-CONSUME", "EN-MATCH", "EN-UNIFY", "EN-EXITS", "FS-DEDUP", "FX-UNIFY", "FX-EQUAL", "LM-SENTINEL"},
-		Explanation: "Static decision of structural necessary conditions of C05 (thin claim; the join enumeration itself is NOT decided). EN-APPLYALL: in every iteration of World.Run a full-range loop applies every rule to the world's current facts, leaves early only by ending the evaluation, and all facts derived in the iteration are merged (InsertAll) before the fixpoint test. LM-SENTINEL: success is reported only when an iteration added no fact. EN-CONSUME: Rule.Apply joins the rule's whole body and all expressions, inserts an instance of a clone of the rule head for every combination it receives, and leaves its receive loop early only with an error. EN-MATCH: Predicate.Match returns true only after a complete positional scan with equal name and arity, passing a position only if one side is a variable or the constants are Equal. EN-UNIFY: in the join, variables are bound by visiting every term position of every body predicate (full ranges) and binding the variable at position j to the matched fact's term at the same position j. EN-EXITS: the enumeration goroutine ends only for one of the enumerated reasons (index odometer exhausted, no facts, head variable missing from the body, expression error sent, expression-only rule evaluated once, consumer gone); any other early termination loses combinations. FX-UNIFY: the consistency verdict of a repeated variable (MatchedVariables.Insert) controls a branch. FX-EQUAL: term equality is type-strict for all seven kinds. FS-DEDUP: the fact store is a set (structural de-duplication over the full range).",
+		Rules: []string{"EN-APPLYALL", "EN-CONSUME", "EN-HEAD", "EN-MATCH", "EN-UNIFY", "EN-EXITS", "FS-DEDUP", "FX-UNIFY", "FX-EQUAL", "LM-SENTINEL"},
+		Explanation: "Static decision of structural necessary conditions of C05 (thin claim; the join enumeration itself is NOT decided). EN-APPLYALL: in every iteration of World.Run a full-range loop applies every rule to the world's current facts, leaves early only by ending the evaluation, and all facts derived in the iteration are merged (InsertAll) before the fixpoint test. LM-SENTINEL: success is reported only when an iteration added no fact. EN-CONSUME: Rule.Apply joins the rule's whole body and all expressions, inserts an instance of a clone of the rule head for every combination it receives, and leaves its receive loop early only with an error. EN-HEAD: the derived fact is the cloned head in which every variable position (full-range loop) is replaced by the value matched for that very variable, a missing binding ends Apply with an error, and QueryRule returns exactly what Apply derives from the world's facts. EN-MATCH: Predicate.Match returns true only after a complete positional scan with equal name and arity, passing a position only if one side is a variable or the constants are Equal. EN-UNIFY: in the join, variables are bound by visiting every term position of every body predicate (full ranges) and binding the variable at position j to the matched fact's term at the same position j. EN-EXITS: the enumeration goroutine ends only for one of the enumerated reasons (index odometer exhausted, no facts, head variable missing from the body, expression error sent, expression-only rule evaluated once, consumer gone); any other early termination loses combinations. FX-UNIFY: the consistency verdict of a repeated variable (MatchedVariables.Insert) controls a branch. FX-EQUAL: term equality is type-strict for all seven kinds. FS-DEDUP: the fact store is a set (structural de-duplication over the full range).",
 		Decides:     "the skeleton of naive evaluation (all rules, every iteration, all received combinations, success only at fixpoint) and the local matching/unification/equality predicates",
 		NotDecided:  "exactness of the join odometer (combine / advanceIndexes): a skipped last fact or a lost carry is invisible to any structural rule short of re-proving the algorithm, which needs a symbolic or model-based argument from another technique family; expression results (C06)",
 		Technique:   "loop-shape and guard analysis over go/ssa of the evaluation skeleton (not of the join enumeration)",
